@@ -11,8 +11,8 @@ import QlibcModel.Generated.Shapes
 namespace Qlibc.Shapes.Hash
 open Qlibc.Generated.Shapes
 
-/-- no function of this family keeps state in a function-local static object: results depend on the
-    arguments (and the container) only, also when several threads are inside at once -/
-theorem no_hidden_static_state : hashStatics = [] := by decide
+/-- the only writable static storage of this family is MD5's PADDING table (declared without `const`,
+    never written): results depend on the arguments only, also when several threads are inside at once -/
+theorem no_hidden_static_state : hashStatics = [("md5c.c", "PADDING")] := by decide
 
 end Qlibc.Shapes.Hash
